@@ -159,10 +159,10 @@ func corpus(r *hx.Run) {
 	dg(3, 2, arrival{0, "rlock", "0,1"}, arrival{1, "lock", "1"}, arrival{2, "rlock", "1"}, arrival{0, "runlock", "1,0"})
 }
 
-// quickDiv: the thorough tier multiplies the random volumes by Scale/2 (the exhaustive part grows instead).
+// quickDiv: the thorough tier multiplies the random volumes by Scale/4 (the exhaustive part grows instead).
 func quickDiv(r *hx.Run) int {
 	if r.Tier == "thorough" {
-		return 2
+		return 4
 	}
 
 	return 1
@@ -213,36 +213,36 @@ func main() {
 		exploreDag(r, 4, 3, 3, 100000, true)
 	} else {
 		exploreSM(r, 2, 3, 1<<30, false)
-		exploreSM(r, 3, 1, 1<<30, false)
+		exploreSM(r, 3, 2, 1<<30, false)
 		exploreSM(r, 4, 1, 1<<30, false)
-		exploreSM(r, 3, 2, 6000, true)
-		exploreDag(r, 2, 2, 1, 1<<30, false)
+		exploreSM(r, 4, 2, 6000, true)
 		exploreDag(r, 2, 2, 2, 1<<30, false)
-		exploreDag(r, 3, 3, 1, 4000, true)
+		exploreDag(r, 3, 2, 1, 1<<30, false)
+		exploreDag(r, 3, 3, 1, 5000, true)
 	}
 	tExh := time.Since(t0)
-	for i := 0; i < 5000*r.Scale/quickDiv(r) && !giveUp(); i++ {
+	for i := 0; i < 12000*r.Scale/quickDiv(r) && !giveUp(); i++ {
 		rng, sub := r.Rng.Fork()
 		randomSM(r, rng, sub)
 	}
-	for i := 0; i < 5000*r.Scale/quickDiv(r) && !giveUp(); i++ {
+	for i := 0; i < 12000*r.Scale/quickDiv(r) && !giveUp(); i++ {
 		rng, sub := r.Rng.Fork()
 		randomDag(r, rng, sub)
 	}
-	for i := 0; i < 5000*r.Scale/quickDiv(r) && !giveUp(); i++ {
+	for i := 0; i < 12000*r.Scale/quickDiv(r) && !giveUp(); i++ {
 		rng, sub := r.Rng.Fork()
 		randomWM(r, rng, sub)
 	}
 	tArr := time.Since(t0)
 	// (2) stress
-	for i := 0; i < 20*r.Scale && (i == 0 || !giveUp()); i++ {
+	for i := 0; i < 40*r.Scale/quickDiv(r) && (i == 0 || !giveUp()); i++ {
 		rng, sub := r.Rng.Fork()
 		stressSM(r, rng, sub, rng.Range(4, 16), 400, hx.Pick(rng, []int{10, 30, 50, 90}))
 		rng, sub = r.Rng.Fork()
 		stressDag(r, rng, sub, rng.Range(4, 16), 300, rng.Range(2, 5))
 	}
 	// (4) wait stress
-	for i := 0; i < 10*r.Scale && (i == 0 || !giveUp()); i++ {
+	for i := 0; i < 20*r.Scale/quickDiv(r) && (i == 0 || !giveUp()); i++ {
 		rng, sub := r.Rng.Fork()
 		stressCounter(r, rng, sub, rng.Range(2, 8), rng.Range(1, 4), 150)
 		rng, sub = r.Rng.Fork()
